@@ -26,8 +26,10 @@ REPLAY_TIMEOUT = 60
 DET_RUNS = 400  # runs re-executed in a second process layout for the per-check determinism gate
 
 SAN_ENV = {
+    # (quarantine: 16 workers with blocks of many megabytes each would otherwise hold up to 256 MB
+    #  of freed memory per process)
     "ASAN_OPTIONS": "exitcode=77:detect_leaks=0:abort_on_error=0:allocator_may_return_null=1:"
-                    "detect_stack_use_after_return=0:symbolize=1",
+                    "detect_stack_use_after_return=0:symbolize=1:quarantine_size_mb=48",
     "UBSAN_OPTIONS": "print_stacktrace=0:halt_on_error=1:exitcode=76",
     "TSAN_OPTIONS": "suppress_equal_stacks=0:suppress_equal_addresses=0:halt_on_error=0:"
                     "report_signal_unsafe=0:exitcode=0:history_size=4:report_thread_leaks=0",
@@ -473,6 +475,7 @@ def run(pid, P, t0, tmpdir):
             stats, cands = parse_worker(text)
             for c in cands:
                 c["engine"] = e
+                c["worker"] = (w, nworkers)
             all_cands += cands
             if stats is None and not cands:
                 # the worker died and the death callback did not name the run: execute its share once
@@ -540,6 +543,21 @@ def run(pid, P, t0, tmpdir):
                 f.write(text)
             r1 = replay(exe, cand)
         r2 = replay(exe, cand)
+        if (c.get("died") and "worker" in c and r1[0] == "ok" and r2[0] == "ok" and r1[1] == r2[1]):
+            # The worker died in this run, yet the run passes in two fresh processes with the same
+            # event log. Either the death depends on what the worker had executed before (then its
+            # share dies again when executed once more) or it was the environment (memory or time
+            # exhausted while 16 workers ran side by side): execute the worker's share once more.
+            again = locate_death(exe, e, tier, seed, c["worker"][0], c["worker"][1])
+            if again is None:
+                log("INFRA-NOTE worker %d of %s died in run %d, but the run passes in fresh processes and the "
+                    "worker's share passes when executed again: taken as resource exhaustion, not as a verdict"
+                    % (c["worker"][0], e["id"], c["run"]))
+                continue
+            log("INFRA worker %d of %s dies again (run %d) although run %d passes on its own: the runs of a "
+                "process depend on their predecessors" % (c["worker"][0], e["id"], again["run"], c["run"]))
+            log("simulator nondeterminism: no verdict")
+            return 2
         if r1[0] == "ok" or r1[0] != r2[0] or (r1[1] is not None and r1[1] != r2[1]):
             log("INFRA candidate run %d of %s (%s) does not reproduce identically in fresh processes: "
                 "%s/%s vs %s/%s" % (c["run"], e["id"], c["cls"], r1[0], r1[1], r2[0], r2[1]))
